@@ -46,6 +46,11 @@ def expr(F, x, du=None, depth=0, seen=None):
     while fields and base[0] == "agg" and base[1] == "tuple" and fields[0].isdigit() and int(fields[0]) < len(base[2]):
         base = base[2][int(fields[0])]
         fields = fields[1:]
+    # payload of an enum aggregate whose variant is known (Some(x).0 -> x)
+    while fields and base[0] == "agg" and len(base) > 3 and base[3] is not None and fields[0].isdigit() and \
+            int(fields[0]) < len(base[2]) and not str(base[1]).startswith("closure:"):
+        base = base[2][int(fields[0])]
+        fields = fields[1:]
     if fields:
         if base[0] == "field":
             return ("field", base[1], tuple(base[2]) + tuple(fields))
@@ -80,6 +85,12 @@ def _def_expr(F, kind, site, du, depth, seen):
         args = tuple(expr(F, a, du, depth + 1, seen) for a in site.args)
         if tm in TRANSPARENT_CALLS and args:
             return args[0]
+        # `x?` on an Option whose variant is known on this path (an inlined helper returning Some(..)/None)
+        if tm == "core::ops::try_trait::Try::branch" and args and args[0][0] == "agg" and len(args[0]) > 3:
+            if args[0][1] == "Option::Some" and args[0][2]:
+                return ("agg", "ControlFlow::Continue", (args[0][2][0],), 0)
+            if args[0][1] == "Option::None":
+                return ("agg", "ControlFlow::Break", (args[0],), 1)
         return ("call", strip_generics(c), args, site.bb)
     rv = site.rv or {}
     if "use" in rv:
